@@ -110,6 +110,9 @@ type Config struct {
 }
 
 type Options struct {
+	// BackwardsTime: timestamps are not monotonic (leader changes between nodes whose clocks differ
+	// by up to 1.9s)
+	BackwardsTime bool
 	// OddTables: generated configurations may repeat an operator name or leave names and
 	// passwords empty (only the configuration check uses it)
 	OddTables bool
@@ -459,6 +462,15 @@ func DefaultConfig() Config {
 }
 
 func (g *Gen) tick(t *rapid.T) {
+	if g.opt.BackwardsTime && coin(t, "clockbehind", 1, 12) {
+		// the entry was accepted by a leader whose clock is behind the previous leader's (nodes may
+		// differ by less than the election timeout of 2s): its timestamp is earlier than its predecessor's
+		back := int64(rapid.IntRange(1, 1900).Draw(t, "behindms")) * int64(time.Millisecond)
+		if g.nano-back > 1400000000e9 {
+			g.nano -= back
+		}
+		return
+	}
 	switch pickW(t, "tick", 30, 12, 5, 1, 1, 2) {
 	case 0:
 		g.nano += int64(rapid.IntRange(1, 999).Draw(t, "us")) * 1000
